@@ -98,6 +98,21 @@ def templates(tier="quick"):
                              label="ninja -j4 -k0 -l2 (load average %s) faults=p1:1" % load))
     T.append(scenario("load_limit/fresh", "template", [v], ops=lops, init=[], depth=1, tags=["pool", "load", "fresh"]))
 
+    # T10b validations of validations (out |@ v1, v1 |@ v2, v2 |@ v3 ...): every one reachable this way belongs to the build
+    v = Variant("v0", [Stmt("out", ex=["s"], val=["v1"]), Stmt("v1", ex=["out"], val=["v2"]), Stmt("v2", ex=["t"], val=["v3"]),
+                       Stmt("v3", ex=["v2", "u"]), Stmt("top", ex=["out"])], defaults=["top"])
+    T += _mk("validations_of_validations", [v], tags=["validation"], depth=d, js=(1, 3), targets_extra=["out"], max_fault_stmts=2)
+
+    # T10c `restat = 1` (and `generator = 1`) bound at file level, for statements with and without a block of their own: the
+    # lookup order for a statement's bindings is build, rule, file
+    r1 = Stmt("gen", ex=["tmpl"], restat=True, pool="pp")     # has a block of its own (pool)
+    r1.restat_at_file_level = True
+    r2 = Stmt("gen2", ex=["tmpl2"], restat=True)               # has none
+    r2.restat_at_file_level = True
+    v = Variant("v0", [r1, r2, Stmt("a", ex=["gen"]), Stmt("b", ex=["gen2"]), Stmt("top", ex=["a", "b"])], pools={"pp": 1},
+                header="restat = 1")
+    T += _mk("restat_bound_at_file_level", [v], tags=["restat", "pool"], depth=d, js=(1, 2), touch=True, max_fault_stmts=1, edits_during=False)
+
     # T11b a phony statement bound to the pool (a build-level `pool =` on an alias) that becomes ready in the middle of the
     # build, with more members of the pool behind it than the pool is deep
     v = Variant("v0", [Stmt("a", ex=["s"]), Stmt("al", ex=["a"], phony=True, pool="one"), Stmt("p1", ex=["al"], pool="one"),
